@@ -374,6 +374,8 @@ def d3_text_inputs(ctx, idx):
                 ok = isinstance(elt, ast.Name) and elt.id == 'str'
                 # the guard of this return must agree with the schema form
                 test = _innermost_if_test(ret)
+                if test is not None:
+                    test = nf.subst(test, lib.local_env(base.node))
                 want = 'isinstance(student_input, list)'
                 if test is not None:
                     t = nf.canon(test)
@@ -676,6 +678,11 @@ def d6_numpy_state(ctx, idx):
         h = idx.func('mitxgraders.helpers.calc.expressions.handle_np_floating_errors')
         want = {'divide by zero': 'ZeroDivisionError', 'overflow': 'OverflowError', 'value': 'ValueError'}
         got = {}
+        table_loop = _np_error_table(idx, h)
+        if table_loop is not None:
+            got.update(table_loop)
+        elif lib.loops_of(h.node):
+            raise AnalysisError('handle_np_floating_errors: loop form not recognised')
         for p in nf.decision_paths(h.node.body):
             if p.leaf.kind != 'raise':
                 r.violation('handle_np_floating_errors', 'a path returns instead of raising: the floating-point error is ignored', h.loc)
@@ -687,6 +694,40 @@ def d6_numpy_state(ctx, idx):
         for k, v in want.items():
             r.check(got.get(k) == v, "handle_np_floating_errors: '%s'" % k, v,
                     "'%s' errors raise %s instead of %s" % (k, got.get(k), v), h.loc, expected=v, found=str(got.get(k)))
+
+
+def _np_error_table(idx, h):
+    """`for frag, cls in TABLE: if frag in err: raise cls` with TABLE a module-level literal of pairs -> {frag: class name}."""
+    loops = lib.loops_of(h.node)
+    if len(loops) != 1 or not isinstance(loops[0], ast.For):
+        return None
+    lp = loops[0]
+    if not (isinstance(lp.target, ast.Tuple) and len(lp.target.elts) == 2 and all(isinstance(e, ast.Name) for e in lp.target.elts)):
+        return None
+    frag, cls = lp.target.elts[0].id, lp.target.elts[1].id
+    if len(lp.body) != 1 or not isinstance(lp.body[0], ast.If) or lp.body[0].orelse:
+        return None
+    test = nf.canon(lp.body[0].test)
+    errp = h.params[0]
+    if nf.match('%s in %s' % (frag, errp), test) is None:
+        return None
+    body = lp.body[0].body
+    if len(body) != 1 or not isinstance(body[0], ast.Raise) or nf.exc_class_name(body[0].exc) != cls:
+        return None
+    table = lp.iter
+    if isinstance(table, ast.Name):
+        vals = h.module.assigns.get(table.id, [])
+        if len(vals) != 1:
+            return None
+        table = vals[0]
+    if not isinstance(table, (ast.Tuple, ast.List)):
+        return None
+    out = {}
+    for e in table.elts:
+        if not (isinstance(e, (ast.Tuple, ast.List)) and len(e.elts) == 2 and isinstance(e.elts[0], ast.Constant)):
+            return None
+        out[e.elts[0].value] = nf.exc_class_name(e.elts[1])
+    return out
 
 
 # ------------------------------------------------------------------------ self-test
